@@ -373,3 +373,80 @@ func tierConfigs(tier string) string {
 	}
 	return "0000,1111,0010,0101,1010"
 }
+
+func init() {
+	registerProp(&PropSpec{
+		ID: "C07",
+		Units: func(tier string, seed int64, sh *Shared) []Unit {
+			c := tierConfigs(tier)
+			units := shapeUnitsMax(tier, "VerifC07", [][]string{{"foot", "", "v", c}}, [][]string{{"foot", "event", "v", c}}, 7)
+			// debug mode and the history clause on the small family
+			small := 1
+			if tier == "thorough" {
+				small = 2
+			}
+			for _, src := range shapeFamily(small, leavesStandard, false, "BI") {
+				units = append(units, Unit{"VerifC07", []string{src, "foot", "debug", "v", c}})
+				units = append(units, Unit{"VerifC07", []string{src, "foot", "event", "f", c}})
+				units = append(units, Unit{"VerifC07", []string{src, "hist", "", "f", c}})
+				units = append(units, Unit{"VerifC07", []string{src, "hist", "event", "v", c}})
+			}
+			return units
+		},
+		Reach:  []string{"evaluated", "history"},
+		Bounds: shapeBounds(map[string]interface{}{"monitor": "every Store / MapUpdate / copy / append-in-place / sort swap executed on any path is checked against the set of slots reachable from *Expr at freeze time; stores to package variables outside init are counted",
+			"configurations": "quick: 5 covering optimisation subsets; thorough: all 16; event modes off / ReportEvent / Debug"}),
+		Rule:   "one unit per (shape, variant, event mode, fault mode); a state is one symbolic path of TryEval+Eval+Dump+DumpTable under the frozen-heap monitor",
+		Assumptions: []string{"interleavings are not explored: the schedule quantifier is discharged by non-interference (no call writes memory another call can read, channel sends are synchronisation); user-supplied fetchers/operators that share state are outside the property"},
+		WallBudget:  shapeBudget,
+	})
+	registerProp(&PropSpec{
+		ID: "C10",
+		Units: func(tier string, seed int64, sh *Shared) []Unit {
+			maxM, _ := shapeTierParams(tier)
+			var units []Unit
+			pol := leavesExhaustVK
+			if maxM > 2 {
+				pol = leavesStandard
+			}
+			for _, src := range shapeFamily(maxM, pol, false, "BI") {
+				units = append(units, Unit{"VerifC10", []string{src, "", "all"}})
+				if strings.Contains(src, "(p ") || strings.Contains(src, "(q ") {
+					units = append(units, Unit{"VerifC10", []string{src, "pq", "all"}})
+				}
+			}
+			for _, src := range []string{
+				"(and (> (/ 7 KI0) 1) b0)", "(or b0 (= (/ KI0 KI1) 2))", "(if (> (/ 1 0) 0) i0 i1)", "(+ (/ 7 0) i0)", "(and false (> (/ 1 0) 0))",
+				"(and (p KB0) (> (/ 7 KI0) i0) b0)", "(or (p true) (p false) b0)", "(+ (q 1) (q KI0) i0)", "(and b0 (or KB0 (p b1)) (not (p KB1)))",
+				"(and (or b0 KB0) (or KB1 b1) b2)", "(or (and b0 KB0) (and KB1 b1) b2)", "(if KB0 (and b0 KB1) (or b1 KB2))",
+			} {
+				units = append(units, Unit{"VerifC10", []string{src, "", "all"}}, Unit{"VerifC10", []string{src, "pq", "all"}})
+			}
+			return units
+		},
+		Reach:  []string{"undeclared", "must-remain", "evaluated"},
+		Bounds: shapeBounds(map[string]interface{}{"leaf_assignment": "every variable/symbolic-constant assignment for ≤2 internal nodes", "evaluations": "2 per compilation"}),
+		Rule:   "one unit per (shape with leaf assignment, stateless declaration); all 16 subsets per unit; symbolic constants make every fold a fork on success/failure",
+		WallBudget: shapeBudget,
+	})
+	registerProp(&PropSpec{
+		ID: "C12",
+		Units: func(tier string, seed int64, sh *Shared) []Unit {
+			c := tierConfigs(tier)
+			units := shapeUnitsMax(tier, "VerifC12", [][]string{{"event", "v", c}}, [][]string{{"event", "v", c}}, 7)
+			small := 1
+			if tier == "thorough" {
+				small = 2
+			}
+			for _, src := range shapeFamily(small, leavesStandard, false, "BI") {
+				units = append(units, Unit{"VerifC12", []string{src, "debug", "v", c}})
+				units = append(units, Unit{"VerifC12", []string{src, "event", "f", c}})
+			}
+			return units
+		},
+		Reach:  []string{"eval-events", "builtin-events"},
+		Bounds: shapeBounds(map[string]interface{}{"consumer": "events are read only after the evaluation has returned (retaining / buffered consumer)", "configurations": "quick: 5 covering subsets; thorough: all 16"}),
+		Rule:   "one unit per (shape, event option, fault mode); a state is one symbolic path through plain Eval, event Eval, reference evaluation and TryEval",
+		WallBudget: shapeBudget,
+	})
+}
